@@ -679,8 +679,74 @@ def r10_re_needs_text(ctx, rid: str = "C03.R10") -> None:
     r, prog = ctx.r, ctx.prog
     r.rule(rid, "a raw value is wrapped with SigmaString.from_str only if it is a str: the call is guarded by isinstance(v, str), or a refusal (Sigma error) for `not all(isinstance(v, str) …)` under the same modifier test precedes it")
     n = 0
+    # SigmaDetectionItem.from_mapping interpreted (sa.tabulate): which raw values reach the literal wrapping, under which modifiers
+    from ..tabulate import ClassProxy, call_method, Raised
+    import types as _types
+    DI = "sigma.rule.detection.SigmaDetectionItem"
+    fm = prog.func(DI + ".from_mapping")
+
+    class _SE(Exception): pass
+    class SigmaDetectionError(_SE): pass
+    class SigmaModifierError(_SE): pass
+    class SigmaTypeError(_SE): pass
+    for k_ in (SigmaDetectionError, SigmaModifierError, SigmaTypeError):
+        k_.__init__ = lambda self_, *a, **k: Exception.__init__(self_, *a)
+    # the modifier table of the source, with a stand-in class under the name of every modifier class
+    mm = prog.modules["sigma.modifiers"].assigns.get("modifier_mapping", [])
+    mm_dict = next((st.value for st in mm if isinstance(getattr(st, "value", None), ast.Dict)), None)
+    if mm_dict is None or len(mm_dict.keys) < 20:
+        raise AnalysisError("anchor vanished: sigma.modifiers.modifier_mapping is no longer a dict display of ≥ 20 modifiers")
+    mod_classes = {unparse(v): type(unparse(v), (), {}) for v in mm_dict.values}
+    mod_table = {k.value: mod_classes[unparse(v)] for k, v in zip(mm_dict.keys, mm_dict.values) if isinstance(k, ast.Constant)}
+    SigmaRegularExpressionModifier = mod_table["re"]
+    wrapped, typed = [], []
+    class SigmaString:
+        @staticmethod
+        def from_str(v):
+            wrapped.append(v)
+            return ("literal", v)
+    def sigma_type(v):
+        typed.append(v)
+        return ("typed", v)
+    exc_ns = _types.SimpleNamespace(SigmaDetectionError=SigmaDetectionError, SigmaModifierError=SigmaModifierError, SigmaTypeError=SigmaTypeError)
+    env = {"sigma_exceptions": exc_ns, "SigmaDetectionError": SigmaDetectionError, "SigmaModifierError": SigmaModifierError, "SigmaTypeError": SigmaTypeError,
+           "modifier_mapping": mod_table, "SigmaString": SigmaString, "sigma_type": sigma_type}
+    env.update(mod_classes)
+    IK = {"max_steps": 6000, "behaviours": (_SE,)}
+    built = []
+    klass = ClassProxy(prog, DI, env, ctor=lambda *a, **k: (built.append((a, k)), ("item", a, k))[1], interp_kwargs=IK)
+    bad10 = []
+    for key, val, want in ((
+            ("f|re", "a\\*b", ("literal", ["a\\*b"])), ("f|re", ["x", "y*"], ("literal", ["x", "y*"])), ("f|re|i", "x", ("literal", ["x"])), ("f|re", [], ("literal", [])),
+            ("|re", "kw", ("literal", ["kw"])),
+            ("f|re", 5, "refused"), ("f|re", ["x", 5], "refused"), ("f|re", None, "refused"), ("f|re", [True], "refused"), ("f|re|i", 1.5, "refused"),
+            ("f", "a*", ("typed", ["a*"])), ("f", 5, ("typed", [5])), ("f|contains", ["a", 5], ("typed", ["a", 5])), ("f|base64", "a\\*", ("typed", ["a\\*"])),
+            (None, "kw*", ("typed", ["kw*"])), ("f|i", "x", ("typed", ["x"])), ("f|base64offset|contains", "a*", ("typed", ["a*"])))
+            + tuple((f"f|{mid}", "a\\*", ("typed", ["a\\*"])) for mid in sorted(mod_table) if mid != "re")
+            + tuple((f"f|{mid}|contains", ["a*", "b"], ("typed", ["a*", "b"])) for mid in sorted(mod_table) if mid != "re")):
+        del wrapped[:], typed[:], built[:]
+        try:
+            call_method(prog, DI, "from_mapping", klass, env, key, val, None, interp_kwargs=IK)
+            got = ("literal", list(wrapped)) if wrapped and not typed else ("typed", list(typed)) if typed and not wrapped else ("literal", []) if not wrapped and not typed and "re" in (key or "").split("|") else ("mixed", list(wrapped), list(typed))
+            if not wrapped and not typed and "re" not in (key or "").split("|"):
+                got = ("typed", [])
+        except Raised as ex:
+            got = "refused" if "SigmaTypeError" in str(ex) else f"raises {ex}"
+        if got != want:
+            bad10.append(f"{key!r}: {val!r} → {got!r} instead of {want!r}")
+        elif isinstance(want, tuple) and (len(built) != 1 or list(built[0][0][2] if len(built[0][0]) > 2 else built[0][1].get("value", [])) != [(want[0], v) for v in want[1]]):
+            bad10.append(f"{key!r}: {val!r} → the item is built from {built!r}")
+    n += 1
+    if bad10:
+        nonstr = any("refused" in b.split("instead of")[-1] for b in bad10)
+        r.violation(rid, fm.qual, "sigma_val = [SigmaString.from_str(cast('str', v)) for v in val_list]" if nonstr else "literal wrapping of the raw value under the re modifier only",
+                    (f"a value that comes from the YAML document is wrapped into a SigmaString unchecked: `f|re: 123` yields a regular expression holding an int (later TypeError/AttributeError in modifiers and backends instead of a Sigma type error) — {bad10[0]}"
+                     if nonstr else f"the raw text of the value is taken literally under another modifier than `re`, or parsed under `re`: escapes and wildcards are part of the Sigma value for every modifier but `re` — {bad10[0]}"), fm.loc)
+    else:
+        r.ok(rid, fm.qual, "interpreted on the key/value pairs of every modifier of the table: under `re` text values are wrapped literally and anything else is refused with a Sigma type error; without `re` every value goes through sigma_type", fm.loc)
+    covered = {q_ for q_ in ctx.cg.reachable([fm.qual]) if q_.startswith(DI + ".")} | {fm.qual}
     for q, f in sorted(prog.funcs.items()):
-        if f.module.name not in ("sigma.rule.detection", "sigma.modifiers"):
+        if f.module.name not in ("sigma.rule.detection", "sigma.modifiers") or q in covered:
             continue
         for c in (x for x in ast.walk(f.node) if isinstance(x, ast.Call) and call_name(x).endswith("SigmaString.from_str")):
             n += 1
